@@ -58,6 +58,8 @@ type SOp struct {
 	M     *LExp    `json:"m,omitempty"`
 	Ke    *IExp    `json:"ke,omitempty"`
 	Ok    int      `json:"ok,omitempty"`
+	Rdx   bool     `json:"rdx,omitempty"`  // lk2 in the := form: x is already declared in the scope (assigned, not created)
+	Rdok  bool     `json:"rdok,omitempty"` // … same for ok
 	Sel   *LExp    `json:"sel,omitempty"`
 	Wrap  bool     `json:"wrap,omitempty"` // rendered inside an immediately called function literal
 }
@@ -69,6 +71,7 @@ type Op struct {
 	I     int    `json:"i,omitempty"`
 	V     int    `json:"v,omitempty"`
 	ET    string `json:"et,omitempty"` // element type of the ranged value
+	SK    string `json:"sk,omitempty"` // kind of the ranged value: array | slice | ptr (coverage bucket only)
 	Body  []SOp  `json:"body,omitempty"`
 	X     int    `json:"x,omitempty"`
 	Sel   *LExp  `json:"sel,omitempty"`
@@ -240,7 +243,7 @@ func (o *SOp) sexp() string {
 	case "md":
 		return fmt.Sprintf("(md %s %s)", o.M.sexp(), o.Ke.sexp())
 	case "lk2":
-		return fmt.Sprintf("(lk2 %s %d %d %s %s %s)", b01(o.IsDef), o.X, o.Ok, o.M.sexp(), o.Ke.sexp(), zero(ty(o.T)).sexp())
+		return fmt.Sprintf("(lk2 %s %d %d %s %s %s %s %s)", b01(o.IsDef), o.X, o.Ok, o.M.sexp(), o.Ke.sexp(), zero(ty(o.T)).sexp(), b01(o.Rdx), b01(o.Rdok))
 	case "call":
 		return fmt.Sprintf("(call %s %s %s %d %s)", b01(o.IsDef), o.L.sexp(), o.Sel.sexp(), o.C, o.R.sexp())
 	}
@@ -276,7 +279,15 @@ func (o *SOp) binds() ([]int, []*Type) {
 		}
 	case "lk2":
 		if o.IsDef {
-			return []int{o.X, o.Ok}, []*Type{ty(o.T), ty("bool")}
+			var xs []int
+			var ts []*Type
+			if !o.Rdx {
+				xs, ts = append(xs, o.X), append(ts, ty(o.T))
+			}
+			if !o.Rdok {
+				xs, ts = append(xs, o.Ok), append(ts, ty("bool"))
+			}
+			return xs, ts
 		}
 	}
 	return nil, nil
@@ -530,6 +541,11 @@ func (p *Prog) source() (src string, err error) {
 			}
 			pool = append(pool, xs...)
 			body.WriteString("\t" + st + "\n")
+			// every declared variable is also assigned to the blank identifier: a sequence of `_ = x` of different
+			// types (a blank destination is never a redeclared variable: commit 6ebc898 of the repository)
+			for _, x := range xs {
+				body.WriteString("\t_ = " + r.name(x) + "\n")
+			}
 		case "rng":
 			saved := r.e.clone()
 			et := ty(o.ET)
@@ -544,7 +560,11 @@ func (p *Prog) source() (src string, err error) {
 					r.e[x] = ts[k]
 				}
 				scope = append(scope, xs...)
-				body.WriteString("\t\t" + st + "\n\t\t" + r.show(scope) + "\n")
+				body.WriteString("\t\t" + st + "\n")
+				for _, x := range xs {
+					body.WriteString("\t\t_ = " + r.name(x) + "\n")
+				}
+				body.WriteString("\t\t" + r.show(scope) + "\n")
 			}
 			if len(o.Body) == 0 {
 				body.WriteString("\t\t" + r.show(scope) + "\n")
